@@ -10,7 +10,7 @@ from . import c02
 def main(tier):
     chk = Check("C13", tier)
     try:
-        opts = {"maxp": 4, "variants": dict(spellings=("new",), orders=False, dataclass=True, stack_switch=True)}
+        opts = {"maxp": 4, "variants": dict(spellings=("new", "old"), orders=False, dataclass=True, stack_switch=True)}
         st = c02.run_cases(chk, "C13", 2400 if tier == "quick" else 60000, opts, "c13")
         if st.get("TCE", 0) < 50:
             raise MachineryFailure("too few failing calls were generated")
